@@ -190,7 +190,7 @@ func replayMain(file string) int {
 		fmt.Println(err)
 		return 2
 	}
-	fmt.Printf("replaying %s\n  entry=%s params=%v\n  inputs: %s\n  expected: %s %q\n", abs, rf.Entry, rf.Params, readable(rf.Inputs), rf.Kind, rf.Label)
+	fmt.Printf("replaying %s\n  entry=%s params=%v\n  inputs: %s\n  expected: %s %q\n", abs, rf.Entry, rf.Params, readableDocs(rf.Inputs, rf.Docs), rf.Kind, rf.Label)
 	for _, line := range strings.Split(string(out), "\n") {
 		if i := strings.Index(line, "VERIF-NATIVE "); i >= 0 && !strings.Contains(line, "VERIF-NATIVE-START") {
 			var nr nativeResult
